@@ -28,7 +28,7 @@ VERIF = os.path.dirname(HERE)
 CACHE = os.environ.get('OPTREE_VERIF_CACHE') or os.path.join(VERIF, '.cache')
 CLANG = 'clang++-14'
 PYBIND_INC = '/venv/lib/python3.12/site-packages/torch/include'
-IR_VERSION = '20'
+IR_VERSION = '21'
 
 CONFIGS = {
     # name: (CPython include dir, extra flags)
@@ -414,6 +414,7 @@ class _TUBuilder:
                 body = self.conv(c)
                 self._lamparent = saved
                 resolve_bool_locals(body)
+                normalise_negations(body)
                 hoist_else_after_exit(body)
                 merge_split_guards(body)
             else:
@@ -895,6 +896,113 @@ def hoist_else_after_exit(body):
                 rewrite_list(blk.kids)
                 n.kids[idx] = blk
     visit(body)
+
+
+_FLIP = {'==': '!=', '!=': '==', '<': '>=', '>=': '<', '>': '<=', '<=': '>'}
+
+
+def _copy_node(n):
+    c = Node(n.kind)
+    for a in Node.__slots__:
+        setattr(c, a, getattr(n, a))
+    c.kids = list(n.kids)
+    c.x = dict(n.x) if n.x else n.x
+    c.ref = dict(n.ref) if n.ref else n.ref
+    return c
+
+
+def _is_boolish(e):
+    t = (e.type or '').replace('const ', '').strip() if e is not None else ''
+    return t == 'bool'
+
+
+def _floaty(e):
+    return any(w in ((e.type or '') if e is not None else '') for w in ('float', 'double'))
+
+
+def normalise_negations(body):
+    """Negations are pushed inward (negation normal form): `!(a == b)` is shown as `a != b`,
+    `!(a < b)` as `a >= b` (integers, pointers, enumerators - not floating point), `!(A && B)` as
+    `!A || !B`, `!(A || B)` as `!A && !B`, and `!!x` as `x` wherever a bool is expected anyway (a
+    condition, an operand of `&&` / `||` / `!`) or x is a bool.  `operator==` / `operator!=` calls
+    (std::string, shared_ptr, iterators) are flipped the same way.  What remains negated is an
+    atom: a call, a name, a member.  The rules read one spelling of a test however it was written."""
+    if body is None:
+        return
+
+    def neg(x, boolctx):
+        """the representation of `!x`"""
+        if x is None:
+            return None
+        if x.kind == 'UnaryOperator' and x.op == '!' and x.kids:
+            inner = x.kids[0]
+            if boolctx or _is_boolish(inner):
+                return rw(inner, True)
+            n = _copy_node(x)
+            n.kids = [rw(inner, True)]
+            out = Node('UnaryOperator')
+            out.op, out.type, out.kids = '!', 'bool', [n]
+            out.file, out.line, out.col = x.file, x.line, x.col
+            return out
+        if x.kind == 'BinaryOperator' and x.op in ('&&', '||') and len(x.kids) == 2:
+            n = _copy_node(x)
+            n.op = '||' if x.op == '&&' else '&&'
+            n.kids = [neg(x.kids[0], True), neg(x.kids[1], True)]
+            return n
+        if x.kind == 'BinaryOperator' and x.op in _FLIP and len(x.kids) == 2 and \
+                not (x.op not in ('==', '!=') and (_floaty(x.kids[0]) or _floaty(x.kids[1]))):
+            n = _copy_node(x)
+            n.op = _FLIP[x.op]
+            n.kids = [rw(x.kids[0], False), rw(x.kids[1], False)]
+            return n
+        if x.kind == 'CXXOperatorCallExpr' and x.callee_name() in ('operator==', 'operator!=') and \
+                len(x.kids) == 3 and x.kids[0] is not None and x.kids[0].ref:
+            n = _copy_node(x)
+            callee = _copy_node(x.kids[0])
+            callee.ref['name'] = 'operator!=' if x.callee_name() == 'operator==' else 'operator=='
+            if callee.name:
+                callee.name = callee.ref['name']
+            n.kids = [callee, rw(x.kids[1], False), rw(x.kids[2], False)]
+            return n
+        out = Node('UnaryOperator')
+        out.op, out.type = '!', 'bool'
+        out.kids = [rw(x, True)]
+        out.file, out.line, out.col = x.file, x.line, x.col
+        out.x = {'isPostfix': False}
+        return out
+
+    def rw(e, boolctx=False):
+        if e is None:
+            return None
+        k = e.kind
+        if k == 'LambdaExpr':
+            return e
+        if k == 'UnaryOperator' and e.op == '!' and e.kids:
+            return neg(e.kids[0], boolctx)
+        if k == 'BinaryOperator' and e.op in ('&&', '||'):
+            e.kids = [rw(c, True) for c in e.kids]
+            return e
+        x = e.x or {}
+        if k == 'IfStmt':
+            i = (1 if x.get('hasInit') else 0) + (1 if x.get('hasVar') else 0)
+            e.kids = [rw(c, (j == i and not x.get('hasVar'))) for j, c in enumerate(e.kids)]
+            return e
+        if k == 'WhileStmt':
+            i = 1 if x.get('hasVar') else 0
+            e.kids = [rw(c, (j == i and not x.get('hasVar'))) for j, c in enumerate(e.kids)]
+            return e
+        if k == 'ForStmt' and len(e.kids) >= 3:
+            e.kids = [rw(c, j == 2) for j, c in enumerate(e.kids)]
+            return e
+        if k == 'DoStmt' and len(e.kids) >= 2:
+            e.kids = [rw(c, j == 1) for j, c in enumerate(e.kids)]
+            return e
+        if k == 'ConditionalOperator' and e.kids:
+            e.kids = [rw(c, j == 0) for j, c in enumerate(e.kids)]
+            return e
+        e.kids = [rw(c, False) for c in e.kids]
+        return e
+    rw(body)
 
 
 def _is_constant(k):
